@@ -161,6 +161,7 @@ TAGS = {"SUIT_Envelope_Tagged": 107, "CoseSign1Tagged": 18, "CoseEncryptTagged":
 
 SPACES = {
     "envelope": ENVELOPE,
+    "envelope-simplified": ENVELOPE,      # the second description of the envelope members (load/dump "suit_simplified")
     "manifest": MANIFEST,
     "common": COMMON,
     "dependency-metadata": DEPENDENCY_METADATA,
